@@ -1,6 +1,7 @@
 import VModel.Trainer
 import VModel.Spec
 import VProofs.Lemmas.AsmMain
+import VProofs.Lemmas.PermAsm
 /-!
 # C09 — A trained model computes exactly the function the learner produced
 
@@ -83,5 +84,64 @@ example :
   · exact hgen 2 (by decide) _ h
 
 end C09Ex
+
+end V
+
+/-! ## the iteration order of `feature_ids` (a hashbrown `HashMap`) in `Trainer::train` is not observable
+
+`for (feature, fid) in self.feature_ids` decides in which order the quantised weights are written into the two `BTreeMap`s
+and the dictionary buckets.  The model takes the order of the trace; these theorems show that every other order of the same
+(pairwise distinct) features gives the same outcome.  No hypothesis on the features is needed.  The literal equality of the
+two `Res` values fails in exactly one way (`C09_assemble_perm_site_differs`): when at least two entries panic, the panic
+*site* reported is that of the entry visited first. -/
+namespace V
+
+/-- **order independence**: on two permutations of a trace with pairwise distinct features `assembleBoundary` returns the same
+outcome (the same model, or a panic in both cases — "panics for one order iff for the other") -/
+theorem C09_assemble_perm (cfg : TrainCfg) (feats₁ feats₂ : List (Feature × Int)) (bias : Int) (tms : List TagModel)
+    (hp : feats₁.Perm feats₂) (hnd : (feats₁.map Prod.fst).Nodup) :
+    assembleBoundary cfg feats₁ bias tms = assembleBoundary cfg feats₂ bias tms ∨
+    ∃ s₁ s₂, assembleBoundary cfg feats₁ bias tms = .panic s₁ ∧ assembleBoundary cfg feats₂ bias tms = .panic s₂ :=
+  C09L.assemble_perm cfg hp hnd bias tms
+
+/-- if one order yields a model, every other order yields the same model -/
+theorem C09_assemble_perm_ok (cfg : TrainCfg) (feats₁ feats₂ : List (Feature × Int)) (bias : Int) (tms : List TagModel)
+    (hp : feats₁.Perm feats₂) (hnd : (feats₁.map Prod.fst).Nodup) (m : WModel)
+    (h : assembleBoundary cfg feats₁ bias tms = .ok m) : assembleBoundary cfg feats₂ bias tms = .ok m :=
+  ((C09L.assemble_perm cfg hp hnd bias tms).ok_iff m).mp h
+
+/-- one order panics iff the other does -/
+theorem C09_assemble_perm_panic_iff (cfg : TrainCfg) (feats₁ feats₂ : List (Feature × Int)) (bias : Int) (tms : List TagModel)
+    (hp : feats₁.Perm feats₂) (hnd : (feats₁.map Prod.fst).Nodup) :
+    (∃ s, assembleBoundary cfg feats₁ bias tms = .panic s) ↔ (∃ s, assembleBoundary cfg feats₂ bias tms = .panic s) :=
+  (C09L.assemble_perm cfg hp hnd bias tms).panic_iff
+
+/-- for the features the trainer itself extracts (no panic, `C09_assemble_total`) the two outcomes are equal -/
+theorem C09_assemble_perm_eq (cfg : TrainCfg) (hc : CfgOK cfg) (feats₁ feats₂ : List (Feature × Int)) (bias : Int)
+    (tms : List TagModel) (hp : feats₁.Perm feats₂) (hnd : (feats₁.map Prod.fst).Nodup)
+    (hg : ∀ e ∈ feats₁, Generable cfg e.1) :
+    assembleBoundary cfg feats₁ bias tms = assembleBoundary cfg feats₂ bias tms := by
+  obtain ⟨m, hm⟩ := C09_assemble_total cfg hc feats₁ bias tms hg
+  rw [hm, C09_assemble_perm_ok cfg feats₁ feats₂ bias tms hp hnd m hm]
+
+/-- the unconditional equality of the two `Res` values is FALSE: two entries that both panic (a character n-gram outside its
+window and a dictionary feature of length 0 — neither is `Generable`) report the site of whichever is visited first -/
+theorem C09_assemble_perm_site_differs :
+    ∃ (cfg : TrainCfg) (feats₁ feats₂ : List (Feature × Int)), feats₁.Perm feats₂ ∧ (feats₁.map Prod.fst).Nodup ∧
+      assembleBoundary cfg feats₁ 0 [] = .panic "usize::try_from(window - len - rel).unwrap()" ∧
+      assembleBoundary cfg feats₂ 0 [] = .panic "dict_weights[length - 1]" :=
+  ⟨{ charW := 1, charN := 1, typeW := 1, typeN := 1, dictWords := [], dictMaxLen := 1 },
+   [(.charNgram ['a'] 5, 1), (.dictWord 0 .left, 1)], [(.dictWord 0 .left, 1), (.charNgram ['a'] 5, 1)],
+   by decide, by decide, by decide, by decide⟩
+
+/-- non-vacuity: the trace of `C09Ex` reversed and rotated (two non-trivial permutations; the features are distinct) assembles
+to the same model, entries of the same n-gram (`['b']` has one entry, the dictionary bucket 1 has three) included -/
+example :
+    C09Ex.trace.reverse.Perm C09Ex.trace ∧ (C09Ex.trace.reverse.map Prod.fst).Nodup ∧
+    C09Ex.trace.reverse ≠ C09Ex.trace ∧
+    assembleBoundary C09Ex.cfg C09Ex.trace.reverse 100 [] = .ok C09Ex.model ∧
+    assembleBoundary C09Ex.cfg (C09Ex.trace.rotateLeft 4) 100 [] = .ok C09Ex.model ∧
+    assembleBoundary C09Ex.cfg C09Ex.trace 100 [] = .ok C09Ex.model := by
+  refine ⟨by decide, by decide, by decide, by decide, by decide, by decide⟩
 
 end V
